@@ -436,7 +436,11 @@ func paramRootedWrites(w *World, fn *ssa.Function, depth int) ([]int, bool) {
 				} else if !isL {
 					return nil, false
 				}
-			case *ssa.MapUpdate, *ssa.Go, *ssa.Select, *ssa.Send, *ssa.Defer:
+			case *ssa.Select:
+				if !recvOnlySelect(x) {
+					return nil, false
+				}
+			case *ssa.MapUpdate, *ssa.Go, *ssa.Send, *ssa.Defer:
 				return nil, false
 			case ssa.CallInstruction:
 				c := x.Common()
@@ -643,7 +647,11 @@ func (f *Frame) loopWrites(li *loopInfo) (sorts []Sort, all bool, maps bool) {
 					add(L.ElemSorts(x.Val.Type()))
 				case *ssa.MapUpdate:
 					maps = true // map contents live in their own state: memory cells are untouched
-				case *ssa.Go, *ssa.Select, *ssa.Send:
+				case *ssa.Select:
+					if !recvOnlySelect(x) {
+						all = true
+					}
+				case *ssa.Go, *ssa.Send:
 					all = true
 				case ssa.CallInstruction:
 					c := x.Common()
